@@ -69,6 +69,12 @@ EXTRA = [
     "SELECT ?, a FROM t WHERE b = ? AND c IN (?, ?) ORDER BY d LIMIT 3",
     "SELECT a FROM int1 (select raw from x) AS n JOIN t ON n.k = t.k",
     "SELECT coalesce((SELECT m FROM u LIMIT 1), a) FROM t",
+    # leaf-like nodes that keep plain Python values in their fields (nothing below them is a node)
+    "SELECT a + INTERVAL '1 day', b - interval 3 hour FROM t WHERE c > now() - INTERVAL '2' week ORDER BY d + INTERVAL '1' month",
+    "SELECT @v, @@session.x, LATEST, t.*, * FROM t WHERE a = @w AND b > LATEST",
+    "SELECT a FROM t WHERE b = TRUE AND c IS NULL AND d = 1.5 AND e = 'txt' AND f = -2 LIMIT 2 OFFSET 1",
+    "SELECT cast(a AS varchar(10)), b::decimal(10, 2), c FROM t FOR UPDATE",
+    "SELECT row_number() OVER (ORDER BY a ROWS BETWEEN 1 PRECEDING AND CURRENT ROW) FROM t",
 ]
 
 
@@ -205,6 +211,10 @@ def judge(tree):
                 out.append(({'defect': 'is_table-wrong', 'parent': e['parent'], 'field': e['field'], 'flag': it}, {'node': repr(e['node'])[:120]}))
             if ig != e['is_target']:
                 out.append(({'defect': 'is_target-wrong', 'parent': e['parent'], 'field': e['field'], 'flag': ig}, {'node': repr(e['node'])[:120]}))
+    # the visitor is for nodes: a bare string / number / list / None handed to it is a call for something that is no node
+    for n, it, ig in visits:
+        if not astnode(n) and type(n).__name__ not in WRAPPERS:
+            out.append(({'defect': 'visitor-called-with-non-node', 'type': type(n).__name__}, {'value': repr(n)[:120]}))
     # anything visited that is an ASTNode but neither required nor a tolerated wrapper?
     for n, it, ig in visits:
         if astnode(n) and id(n) not in by_id and type(n).__name__ not in WRAPPERS:
